@@ -1116,6 +1116,62 @@ def run_r3(r, c):
 
 # ===============================================================================================
 
+def run_r5(chk, F):
+    """float identity: bytecode data that carries an f32/f64 must never be compared with `==` by the code that
+    writes or emits bytecode — IEEE equality identifies 0.0 with -0.0 and separates NaN from itself, so merging or
+    deduplicating on it changes the program that is written."""
+    import re
+    import cfg
+    r = chk.rule("C18.R5", "writers/emitters never compare float-carrying bytecode data (ConstPoolEntry, ConstValue, "
+                           "…) with PartialEq: interning by IEEE equality merges 0.0 with -0.0")
+    c = F.crate(CRATE)
+    carriers = set()
+    for a in c.items["adts"]:
+        for v in a["variants"]:
+            for f in v["fields"]:
+                if f["ty"] in ("f32", "f64"):
+                    carriers.add(a["path"])
+    if not r.anchor("dora_bytecode ADTs with an f32/f64 field", sorted(carriers)):
+        return
+    r.floor("float-carrying ADTs", len(carriers), 2)
+    nfn = nsites = 0
+    for cn, scope in (("dora_bytecode", ("dora_bytecode::writer::", "dora_bytecode::builder::", "dora_bytecode::data::",
+                                         "dora_bytecode::program::")),
+                      ("dora_frontend", ("dora_frontend::generator", "dora_frontend::program_emitter"))):
+        cc = F.crate(cn)
+        for pth, mb in sorted(cc.mir.items()):
+            if "::tests" in pth or pth.startswith("<") or not pth.startswith(scope):
+                continue
+            nfn += 1
+            B = cfg.Body(mb)
+            for x in B.calls:
+                m = re.match(r"<(.+) as core::cmp::PartialEq(<.*>)?>::(eq|ne)$", x.name or "")
+                if m:
+                    self_ty = m.group(1).lstrip("&").split("<")[0]
+                    inner = re.findall(r"dora_bytecode::[A-Za-z0-9_:]+", m.group(1))
+                    hit = [t for t in ([self_ty] + inner) if t in carriers]
+                elif last(x.name or "") in ("contains", "dedup", "starts_with", "ends_with") and x.fn:
+                    # equality-based library searches instantiated at a carrier type
+                    gen = str(x.fn.get("g") or "")
+                    hit = [t for t in re.findall(r"dora_bytecode::[A-Za-z0-9_:]+", gen) if t in carriers]
+                else:
+                    continue
+                if not hit:
+                    continue
+                nsites += 1
+                key = "%s:==(%s)" % (pth, last(hit[0]))
+                r.instance(key, sample={"fn": pth, "type": hit[0]})
+                r.violation(key + ":float-carrying-data-compared-by-ieee-equality",
+                            "`==` on %s inside bytecode-writing code: entries holding 0.0 and -0.0 compare equal (and "
+                            "NaN never equals itself), so reusing/merging on this comparison writes a different "
+                            "constant than the one requested — e.g. `-0f64` next to `0f64` reads back as `0.0`" % hit[0],
+                            "%s:%d" % (B.file, x.line))
+    r.floor("writer/emitter functions scanned", nfn, 300)
+    r.instance("scan:no-ieee-equality-on-float-carriers", sample={"functions": nfn, "sites": nsites,
+                                                                    "carriers": sorted(carriers)})
+
+
+
 def run(chk, F):
     r1 = chk.rule("C18.R1", "per opcode the writer, the Rust reader and the Dora reader agree on operand count, order "
                             "and encoding class; both readers fill the same fields; codecs agree on their constants")
@@ -1130,6 +1186,7 @@ def run(chk, F):
     run_r3(r3, c)
     from rules import c18_wire
     c18_wire.run_wire(chk, F, rid="C18.R4")
+    run_r5(chk, F)
     chk.assumptions += [
         "bincode's own Encode/Decode impls and its derive are trusted (C18 decides symmetry of what the repository "
         "writes, not decode(encode(p)) == p over all programs)",
